@@ -136,10 +136,10 @@ def gen_case(r, tier):
             ds, ps = w
             if kind == "swap_in":
                 op = {"k": kind, "a": a, "route": [{"p": ps[j], "d": ds[j + 1]} for j in range(len(ps))], "dn": ds[0],
-                      "num": num, "den": den * 10, "lm": r.choice([0, 0, 1, 1, 2, 3])}
+                      "num": num, "den": den * 10, "lm": r.choice([0, 0, 1, 1, 2, 3]), "gamm": r.chance(1, 4)}
             elif kind == "swap_out":
                 op = {"k": kind, "a": a, "route": [{"p": ps[j], "d": ds[j]} for j in range(len(ps))], "dn": ds[-1],
-                      "num": num, "den": den * 10, "lm": r.choice([0, 0, 1, 1, 2, 3])}
+                      "num": num, "den": den * 10, "lm": r.choice([0, 0, 1, 1, 2, 3]), "gamm": r.chance(1, 4)}
             else:
                 legs = []
                 for _k in range(r.range(1, 3)):
@@ -460,7 +460,7 @@ def correspond(tier, seed, model_ok):
         if o.get("fatal"):
             continue
         for st in o["steps"]:
-            k = st["rop"]["k"]
+            k = st["rop"]["k"] + ("(gamm msg)" if st["rop"].get("via") == "gamm" else "")
             kinds[k] = kinds.get(k, 0) + 1
             e = "%s:%d" % (k, st["err"])
             errs[e] = errs.get(e, 0) + 1
